@@ -5,6 +5,7 @@ The oracles below judge the IMPLEMENTATION's event log only (they never look at 
 
 from __future__ import annotations
 
+import random
 import re
 
 from . import core, ctl
@@ -77,7 +78,8 @@ def gen_scenario(rng, focus=None, big=False) -> Scenario:
             d = rng.choice([0, 1, 1, 2, 3])
         sched.append(tuple(rng.randrange(4) for _ in range(d)))
     verbose = 0 if rng.random() < 0.6 else rng.choice([1, 5, 11, 60])
-    return Scenario(verbose=verbose, nj=nj, bs_auto=bs_auto, bs=bs, pd_mode=pd_mode, pd=pd, pd_expr=pd_expr, ra=ra, timeout=timeout,
+    sized = random.Random(f"sized/{nj}/{pd}/{len(sched)}/{len(calls)}/{rng.random()}").random() < 0.3
+    return Scenario(sized=sized, verbose=verbose, nj=nj, bs_auto=bs_auto, bs=bs, pd_mode=pd_mode, pd=pd, pd_expr=pd_expr, ra=ra, timeout=timeout,
                     managed=managed, abort_drops=abort_drops, calls=tuple(calls), sched=tuple(sched))
 
 
